@@ -95,8 +95,10 @@ struct String {
     }
 
     String &operator=(const Char_T *str) {
-        deallocate();
+        // str can point into this string's storage: release it after copying.
+        Char_T *old_storage = Storage();
         copyString(str, StringUtils::Count(str));
+        Memory::Deallocate(old_storage);
         return *this;
     }
 
